@@ -1,7 +1,11 @@
 package rscp
 
 import (
+	"encoding/json"
 	"fmt"
+	"math/big"
+	"reflect"
+	"strconv"
 	"time"
 
 	"github.com/cstockton/go-conv"
@@ -78,4 +82,46 @@ var newMap = map[DataType]func(v interface{}) (interface{}, error){
 // new returns pointer to new interface of the expected go type with the provided value
 func (d DataType) new(v interface{}) (interface{}, error) {
 	return newMap[d](v)
+}
+
+// newNumber returns the json number as the go type of the data type.
+// numeric data types only accept numbers they can represent (floats are rounded to the nearest value),
+// all other data types convert the number the same way as new does.
+func (d DataType) newNumber(n json.Number) (interface{}, error) {
+	p := reflect.ValueOf(d.newEmpty(0))
+	if p.Kind() != reflect.Ptr {
+		f, err := n.Float64()
+		if err != nil {
+			return nil, err
+		}
+		return d.new(f)
+	}
+	v := p.Elem()
+	switch v.Kind() { //nolint:exhaustive
+	case reflect.Int8, reflect.Int16, reflect.Int32, reflect.Int64:
+		r, isRat := new(big.Rat).SetString(n.String())
+		if !isRat || !r.IsInt() || !r.Num().IsInt64() || v.OverflowInt(r.Num().Int64()) {
+			return nil, fmt.Errorf("cannot represent %s as %s", n, d)
+		}
+		v.SetInt(r.Num().Int64())
+	case reflect.Uint8, reflect.Uint16, reflect.Uint32, reflect.Uint64:
+		r, isRat := new(big.Rat).SetString(n.String())
+		if !isRat || !r.IsInt() || !r.Num().IsUint64() || v.OverflowUint(r.Num().Uint64()) {
+			return nil, fmt.Errorf("cannot represent %s as %s", n, d)
+		}
+		v.SetUint(r.Num().Uint64())
+	case reflect.Float32, reflect.Float64:
+		f, err := strconv.ParseFloat(n.String(), v.Type().Bits())
+		if err != nil {
+			return nil, fmt.Errorf("cannot represent %s as %s", n, d)
+		}
+		v.SetFloat(f)
+	default:
+		f, err := n.Float64()
+		if err != nil {
+			return nil, err
+		}
+		return d.new(f)
+	}
+	return v.Interface(), nil
 }
